@@ -19,7 +19,7 @@ ASSUMPTIONS = ['Python str hash and tuple hash are arbitrary functions (Section 
 RULE = ('exhaustive: all ordered pairs of channel identifiers over 3 qubits (0, 1, 300) x 4 channels; all ordered pairs of qubit ids over 5 names; '
         'all ordered pairs of edges over 4 names of which one is a prefix of another (incl. swapped); all integer lists of length<=5 over 3 symbols (quick: <=4). '
         'non-trivial: pair shares a qubit / edge pair shares a qubit / list has a repeated element'
-        ' unique_in_order is fed pairwise distinct objects whose equality classes are the numbers, and the driver reports WHICH object (input position) was returned.')
+        ' unique_in_order is fed pairwise distinct objects whose equality classes are the numbers, and the driver reports WHICH object (input position) was returned.' ' Before each unique_in_order case an elementwise equal sequence of OTHER objects is de-duplicated (a result memoised on values would return those).')
 CHANS = ['READOUT', 'MICROWAVE', 'FLUX', 'ALL']
 NAMES = ['D1', 'D2', 'Z1', 'X1', 'D10']
 
